@@ -36,7 +36,8 @@ pub fn clock_queue<R: Ord + Copy>(order: &[Item<R>], must_remove: usize) -> (Vec
 pub fn accepts<R: Ord + Copy + std::fmt::Debug>(items: &[Item<R>], capacity: usize, evict: &[usize], move_back: &[usize]) -> Result<(), String> {
     let n = items.len();
     let m = n.saturating_sub(capacity);
-    let by_id = |id: usize| items.iter().find(|i| i.id == id);
+    let index: std::collections::HashMap<usize, &Item<R>> = items.iter().map(|i| (i.id, i)).collect();
+    let by_id = |id: usize| index.get(&id).copied();
     // structural: distinct input ids, disjoint
     let mut seen = BTreeSet::new();
     for id in evict.iter().chain(move_back.iter()) {
@@ -100,12 +101,12 @@ pub fn accepts<R: Ord + Copy + std::fmt::Debug>(items: &[Item<R>], capacity: usi
                 return Err(format!("unaccessed entry id {} survives although accessed entries are evicted", i.id));
             }
         }
-        let evicted_acc: Vec<&Item<R>> = items.iter().filter(|i| i.accessed && eset.contains(&i.id)).collect();
+        let max_evicted_acc: Option<&Item<R>> = items.iter().filter(|i| i.accessed && eset.contains(&i.id)).max_by_key(|i| i.rank);
         for i in items.iter().filter(|i| i.accessed && !eset.contains(&i.id)) {
             if !mset.contains(&i.id) {
                 return Err(format!("accessed entry id {} is neither evicted nor moved back on a full sweep", i.id));
             }
-            if let Some(worse) = evicted_acc.iter().find(|e| e.rank > i.rank) {
+            if let Some(worse) = max_evicted_acc.filter(|e| e.rank > i.rank) {
                 return Err(format!("accessed entry id {} (rank {:?}) evicted on the second pass before older id {} (rank {:?})", worse.id, worse.rank, i.id, i.rank));
             }
         }
